@@ -45,9 +45,25 @@ def selfcheck(run):
           {(small[t], small[a], s) for (t, a, s) in entry} == e2 and
           {small[i]: {'name': a['name'], 'type': a['type'], 'def': a['def']} for i, a in assets.items()} == a2)
     if not ok:
-        raise tlc.MachineryError('C18 emitter self-check failed on the shipped .sCAD fixture')
+        # The emitter is part of /verif and unchanged between runs: when the round trip of the SHIPPED archive through the
+        # real loader stops being the identity, the loader changed - a divergence of the tree under test (the shipped
+        # archive, abstracted and written again by the inverse translation, no longer loads to the same model).
+        run.divs.append({'kind': 'divergence', 'action': 'LoadLegacy', 'component': 'shipped_scad_fixture_round_trip',
+                         'features': ['scad'], 'detail': {'links_equal': {(c, small[l], small[r]) for (c, l, r) in links} == l2,
+                                                          'entry_equal': {(small[t], small[a], s) for (t, a, s) in entry} == e2},
+                         'adapter': 'checks.c18'})
     run.phases.append({'phase': 'selfcheck', 'name': 'emit_scad round trip on tests/testdata/example_model.sCAD',
                        'assets': len(assets), 'links': len(links), 'entry_steps': len(entry)})
+
+
+def replay_divergence(d):
+    """run.py replay for the fixture round trip: run it again on the current tree"""
+    class R:
+        divs = []
+        phases = []
+    r = R()
+    selfcheck(r)
+    return bool(r.divs), {'divergences': [{k: v for k, v in x.items() if k in ('component', 'detail')} for x in r.divs]}
 
 
 def run(run):
